@@ -227,8 +227,9 @@ def measures_in_scope(st):
     pts = st.point_times()
     if not ms or not pts:
         return False
-    if ms[0][0] != pts[0] or ms[-1][1] != pts[-1]:
-        return False
+    # the measures lie inside the timeline; it may go on after the final barline (a note sounding on, a later element) and
+    # may begin before the first barline (`lead`: only generated without pickup, see below)
+    lead = ms[0][0] != pts[0]
     for (s, e), (s2, e2) in zip(ms, ms[1:]):
         if e != s2:
             return False
@@ -245,7 +246,12 @@ def measures_in_scope(st):
             return False
     if t0 != 0:
         # the correction is anchored at timeline position 0: only unambiguous without a pickup
-        return first_len >= fb and (not tss or tss[0][1] == t0 or tss[0][3] == 4)
+        return not lead and first_len >= fb and (not tss or tss[0][1] == t0 or tss[0][3] == 4)
+    if lead:
+        # elements before the first barline: "pickup" has one reading only when the first measure is a full bar of
+        # the one signature / quarter duration in force from the first point to the first barline
+        if first_len < fb or any(0 < o[1] <= ms[0][0] for o in tss) or any(0 < k <= ms[0][0] for k in st.q):
+            return False
     if tss and tss[0][1] != 0 and tss[0][3] != 4:
         return False  # beats before the first signature are quarters: two readings of "full bar"
     if fb.denominator != 1:
@@ -450,6 +456,73 @@ def gen_meas(Ls, qs, ts_opts, kmax, numberings, t0s=(0,), with_ks_clef=False, se
                             yield dict(q=q, maps=["ts", "meas"] + (["ks", "clef"] if with_ks_clef else []), phases=[ops])
 
 
+TAIL_KINDS = ("over", "after", "late", "ks", "clef", "ts")
+LEAD_KINDS = ("note", "ks")
+
+
+def gen_meas_beyond(Ls, qs, ts_opts, kmax, tails, leads=(0,), tail_kinds=TAIL_KINDS, lead_kinds=LEAD_KINDS,
+                    numberings=("from1",)):
+    """Measures that do NOT span the whole timeline: every tiling of g..g+L by <= kmax measures, the timeline going on
+    for d in `tails` divisions after the final barline E (d=0: not at all) because of
+      over: a note starting at the last barline and ending at E+d     after: a note E..E+d
+      late: a note E+d-1..E+d (d >= 2)          ks / clef / ts: a key signature / clef / 2/4 starting at E+d
+    and beginning g in `leads` divisions before the first barline (g=0: not at all) because of a note 0..g (and 0..1) or
+    a key signature at 0; at least one of d, g is positive. Notes at every measure start and one position later."""
+    for g in leads:
+        for L in Ls:
+            for comp in compositions(L, kmax):
+                bounds = [g]
+                for a in comp:
+                    bounds.append(bounds[-1] + a)
+                E = bounds[-1]
+                for q in qs:
+                    for tso in ts_opts:
+                        for nbn in numberings:
+                            nums = NUMBERINGS[nbn](len(comp))
+                            ops = []
+                            if tso is not None:
+                                kind, b, bt = tso
+                                if kind == "at0":
+                                    ops.append(["ts", 0, b, bt])
+                                elif kind == "gap":
+                                    if len(bounds) < 3:
+                                        continue
+                                    ops.append(["ts", bounds[1], b, bt])
+                            ops += [["meas", bounds[i], bounds[i + 1], nums[i]] for i in range(len(comp))]
+                            noteset = sorted(set(bounds[:-1] + [b_ + 1 for b_ in bounds[:-1] if b_ + 1 < E]))
+                            ops += [["note", t, t + 1, 1, "n%d" % t] for t in noteset]
+                            for lk in (lead_kinds if g else (None,)):
+                                lead = []
+                                if lk == "note":
+                                    lead = [["note", 0, g, 1, "lead"]] + ([["note", 0, 1, 1, "lead1"]] if g > 1 else [])
+                                elif lk == "ks":
+                                    lead = [["ks", 0, 4, "minor"]]
+                                for d in tails:
+                                    for tk in (tail_kinds if d else (None,)):
+                                        if not d and not g:
+                                            continue
+                                        tail = []
+                                        if tk == "over":
+                                            tail = [["note", bounds[-2], E + d, 1, "over"]]
+                                        elif tk == "after":
+                                            tail = [["note", E, E + d, 1, "after"]]
+                                        elif tk == "late":
+                                            if d < 2:
+                                                continue
+                                            tail = [["note", E + d - 1, E + d, 1, "late"]]
+                                        elif tk == "ks":
+                                            tail = [["ks", E + d, -3, None]]
+                                        elif tk == "clef":
+                                            tail = [["clef", E + d, 1, "C", 4, 1]]
+                                        elif tk == "ts":
+                                            tail = [["ts", E + d, 2, 4]]
+                                        # the lead comes first or last in the insertion order
+                                        allops = (lead + ops + tail) if (d + g) % 2 else (tail + ops + lead)
+                                        if not measures_in_scope(_mk_state(q, allops)):
+                                            continue
+                                        yield dict(q=q, maps=["ts", "meas", "ks", "clef"], phases=[allops], beyond=[g, d])
+
+
 def gen_meas_setq(Ls, kmax):
     """Measures with a change of the quarter duration at a later barline (irregular lengths in
     divisions, regular in quarters)."""
@@ -498,6 +571,9 @@ def gen_edits(L, wide=False):
         edits.append([["note", 0, L, 2, "n1"]])
         edits.append([["note", 1, 2, 3, "n2"]])
         edits.append([["meas", L, L + m2, 3], ["note", L, L + m2, 1, "n3"]])
+        # the timeline goes on after the final barline: a note sounding over it, an element after it
+        edits.append([["note", L - 1, L + 2, 1, "n4"]])
+        edits.append([["ks", L + 1, 2, "major"]])
         for i, o in enumerate(base):
             if o[0] in ("ts", "ks", "clef"):
                 edits.append([["rm", i]])
@@ -705,3 +781,43 @@ def gen_inplace_ts(depth, alphabet=("mode", "ts"), maps=("ts",), min_depth=2):
                 c = _inplace_case(base, q, seq, list(maps), name)
                 if c:
                     yield c
+
+
+# ---------------------------------------------------------------------------------------------
+# a caller writes into an array a map returned, then queries the same map object again
+
+
+def gen_requery(wide=False):
+    """Single-phase parts for the space write-into-result-then-query (case key "scribble"): 0-2 (wide: 0-3) key
+    signatures / time signatures on a short timeline, clefs on <= 2 staves, tilings by 1-3 (wide: 1-4) measures with
+    and without elements after the final barline, and the rich base parts of the edit and in-place spaces."""
+    ts_opts = [None, ("at0", 3, 4), ("at0", 6, 8), ("gap", 3, 4)]
+    if not wide:
+        gens = [gen_ks(3, (0, 1), 2, {1: "pool6", 2: "pool3"}),
+                gen_ts(3, (0, 1), TS_POOL[:3], 2, frame="both"),
+                gen_clef(2, 2, 2),
+                gen_meas(range(1, 7), (1, 2), ts_opts, 3, ("from1",)),
+                gen_meas((4, 6), (1,), ts_opts, 3, ("from0",), with_ks_clef=True),
+                gen_meas_beyond((3, 5), (1,), ts_opts, 3, (0, 2), leads=(0, 1), tail_kinds=("over", "ks"))]
+    else:
+        gens = [gen_ks(4, (0, 2), 3, {1: "all", 2: "pool4", 3: "pool3"}),
+                gen_ts(4, (0, 2), TS_POOL[:4], 3, frame="both"),
+                gen_clef(3, 2, 2), gen_clef(2, 3, 1),
+                gen_meas(range(1, 9), (1, 2, 3), ts_opts + [("at0", 2, 2)], 4, ("from1", "odd")),
+                gen_meas((4, 6, 8), (1, 2), ts_opts, 3, ("from0",), with_ks_clef=True),
+                gen_meas_beyond(range(2, 7), (1, 2), ts_opts, 3, (0, 1, 3), leads=(0, 2))]
+    for c in itertools.chain(*gens):
+        c = dict(c)
+        c["scribble"] = 1
+        yield c
+    if not wide:
+        for name, q, base in inplace_bases():
+            m = inplace_maps(q, [base], ["ts", "ks", "clef", "meas"])
+            if m:
+                yield dict(q=q, maps=m, phases=[base], scribble=1)
+        for L in (6, 8):
+            seen = []
+            for c in gen_edits(L):
+                if c["phases"][0] not in seen:
+                    seen.append(c["phases"][0])
+                    yield dict(q=1, maps=list(c["maps"]), phases=[c["phases"][0]], scribble=1)
